@@ -492,6 +492,14 @@ void run_sequential(const Program &p)
     S->slot_vt[s] = dsim::spawn(seq_worker_fn, &args[static_cast<size_t>(s)], "worker");
   }
   size_t epoch = kInitial;
+  {
+    bool any_pin = false, any_fwd = false;
+    for (const Op &op : p.threads[0]) {
+      if (op.kind == kSeqCreate) any_pin = true;
+      if (op.kind == kSeqForward && any_pin) any_fwd = true;
+    }
+    if (any_pin && any_fwd) dsim::note_nontrivial();
+  }
   for (const Op &op : p.threads[0]) {
     switch (op.kind) {
       case kSeqForward: {
